@@ -36,6 +36,24 @@ func textCarriers() []textCarrier {
 	}
 }
 
+type byteForm struct {
+	name  string
+	value func(b []byte) []ev.E
+}
+
+func byteForms() []byteForm {
+	return []byteForm{
+		{"string-bytes", func(b []byte) []ev.E { return []ev.E{ev.EArr(events.ArrayTypeString, uint64(len(b)), b)} }},
+		{"rid-bytes", func(b []byte) []ev.E { return []ev.E{ev.EArr(events.ArrayTypeResourceID, uint64(len(b)), b)} }},
+		{"remoteref-chunked", func(b []byte) []ev.E {
+			return []ev.E{ev.EABegin(events.ArrayTypeReferenceRemote), ev.EChunk(uint64(len(b)), false), ev.EData(b)}
+		}},
+		{"customtext-chunked", func(b []byte) []ev.E {
+			return []ev.E{ev.ECBegin(events.ArrayTypeCustomText, 1), ev.EChunk(uint64(len(b)), false), ev.EData(b)}
+		}},
+	}
+}
+
 var structuralChars = []string{"\"", "\\", "*", "/", "\n", "\r", "\t", " ", "\u00a0", "\u00ad", "\u2028", "\u0301", "\ue000", "\ufffd", "|", "a", "\u0000", "\u007f", "`", "#", "[", "]", "\u2029", "\ufeff", "\u200b", "\u0085"}
 
 func charClass(r rune) string {
@@ -101,7 +119,7 @@ func multilineCommentExpressible(s string) bool {
 }
 
 func c02Run(c *fx.Ctx) {
-	o := corpusOpts{structDepth: c.Pick(5, 6), floatStride: c.Pick(16, 1), latlong: c.Pick(100, 100), arrayFullMax: c.Pick(4, 6), comments: true, customText: true, contextsAll: c.Thorough()}
+	o := corpusOpts{refMaxLen: c.Pick(6, 8), structDepth: c.Pick(5, 6), floatStride: c.Pick(16, 1), latlong: c.Pick(100, 100), arrayFullMax: c.Pick(4, 6), comments: true, customText: true, contextsAll: c.Thorough()}
 	forEachCorpusDoc(c, o, func(doc []ev.E, cls string) {
 		_, _, ok := roundTrip(c, codec.CTE, doc, cls)
 		if ok {
@@ -149,6 +167,32 @@ func c02Run(c *fx.Ctx) {
 				}
 				if len(rs) == 1 {
 					roundTrip(c, codec.CTE, car.doc(sb.String()), textClass(car.name, sb.String()))
+					return
+				}
+				try(rs[:len(rs)/2])
+				try(rs[len(rs)/2:])
+			}
+			try(runes)
+		}
+		// the same code points as ONE-character values delivered as bytes (OnArray / chunked), 64 values per document:
+		// nothing else in the value can force the escaping path, so the per-value escape decision is what is tested
+		for _, bf := range byteForms() {
+			var try func(rs []rune)
+			try = func(rs []rune) {
+				doc := []ev.E{ev.EBD(), ev.EV(0), ev.EList()}
+				for _, r := range rs {
+					doc = append(doc, bf.value([]byte(string(r)))...)
+				}
+				doc = append(doc, ev.EEnd(), ev.EED())
+				sub := fx.NewScratchCtx()
+				_, _, ok := roundTrip(sub, codec.CTE, doc, "probe")
+				c.Add("evaluations", 1)
+				c.Add("codepoint_docs", 1)
+				if ok || sub.ViolationCount() == 0 {
+					return
+				}
+				if len(rs) == 1 {
+					roundTrip(c, codec.CTE, doc, textClass(bf.name, string(rs[0])))
 					return
 				}
 				try(rs[:len(rs)/2])
